@@ -410,11 +410,13 @@ def run(ck):
             # the relation at the temperature of the parameters, then (on the same object) at an explicitly requested other one
             T2 = {77.0: 300.0, 300.0: 77.0}.get(T, T + 100.0)
             for Tuse, ft_call, ktag in ((T, lambda: sd.get_FTCorrelationFunction(), "kms:ftcorr"),
-                                        (T2, lambda: sd.get_FTCorrelationFunction(temperature=T2), "kms:ftcorr:explicit-temperature")):
-                if Tuse != T and trial % 2 == 0:
+                                        (T2, lambda: sd.get_FTCorrelationFunction(temperature=T2), "kms:ftcorr:explicit-temperature"),
+                                        # ... and once more without naming a temperature: the object's own temperature again
+                                        (T, lambda: sd.get_FTCorrelationFunction(), "kms:ftcorr:after-explicit-temperature")):
+                if (Tuse != T or ktag.endswith("after-explicit-temperature")) and trial % 2 == 0:
                     continue
                 ft = ft_call()
-                if Tuse == T and trial % 2 == 1:
+                if Tuse == T and trial % 2 == 1 and ktag == "kms:ftcorr":
                     # asked for inside a units context: the same function
                     unk = ("1/cm", "eV", "THz")[(trial // 2) % 3]
                     with energy_units(unk):
